@@ -13,6 +13,7 @@ Proof.
   - apply sound_dup_enum_value; assumption.
   - apply sound_dup_union_member; assumption.
   - apply sound_dup_input_field; assumption.
+  - apply nodup_str_NoDup. apply check_doc_user_directives_unique. exact Hc.
   - apply sound_unknown_type; assumption.
   - apply sound_input_in_output; assumption.
   - apply sound_output_in_input; assumption.
@@ -30,6 +31,17 @@ Proof.
   - apply sound_directive_repeated; assumption.
   - apply sound_directive_args; assumption.
   - apply sound_directive_recursive; assumption.
+Qed.
+
+(** since 451006c duplicate directive definitions are diagnosed, so uniqueness of the schema's own directive names is
+    no premise any more: what remains is unique type names and "the built-in directive definitions are not redefined" *)
+Lemma sound_dup_directive doc : check_doc doc = [] -> ok_dup_directive doc = true.
+Proof. intros H. apply nodup_str_NoDup. apply check_doc_user_directives_unique. exact H. Qed.
+Lemma sound_all_weak doc :
+  check_doc doc = [] -> unique_type_names doc = true -> builtins_not_redefined doc = true ->
+  forall r, rule_ok r doc = true.
+Proof.
+  intros Hc Ht Hb. apply sound_all; [exact Hc|]. apply unique_names_from; [exact Ht | apply sound_dup_directive; exact Hc | exact Hb].
 Qed.
 
 (** since 556742c an Int literal outside the signed 32-bit range is reported *)
